@@ -711,3 +711,101 @@ def check_C10(run, replay):
                 run.distinct.add(ln)
                 if '"draws":[]' not in ln:
                     run.sample(json.loads(ln), limit=4)
+
+
+# ------------------------------------------------------------------------------------------ C15 C16 C17
+def cli_check(run, mode, n, timeout=6000):
+    """record runs of the built binary -> TLC (spec/MC_Cli.tla) -> judge; returns (full cases, result rows)"""
+    exe = build_cli()
+    tlc_path = run.path("cli.tlc.ndjson")
+    full_path = run.path("cli.full.ndjson")
+    args = ["record", "cli", "--mode", mode, "--seed", run.seed, "--n", n, "--exe", exe, "--dir", run.path("files"),
+            "--out-tlc", tlc_path, "--out-full", full_path]
+    if run.tier == "thorough":
+        args += ["--thorough", "1"]
+    info = json.loads(harness(args, timeout=timeout).strip().splitlines()[-1])
+    res = tlc("MC_Cli", env={"CASES": tlc_path}, timeout=timeout)
+    run.add_tlc(res)
+    exp_path = run.path("cli.exp.ndjson")
+    write_ndjson(exp_path, [{"id": i, "exp": v} for (i, v) in res.out("OUT")])
+    out_path = run.path("cli.res.ndjson")
+    harness(["replay", "cli", "--full", full_path, "--exp", exp_path, "--out", out_path], timeout=timeout)
+    run.notes["recorded"] = info
+    return {c["id"]: c for c in read_ndjson(full_path)}, read_ndjson(out_path)
+
+
+def cli_absorb(run, cases, rows, sig_prefix):
+    slim = {}
+    for i, c in cases.items():
+        slim[i] = {k: c.get(k) for k in ("game", "fmt", "argv", "route", "fault", "class", "text", "printed", "exit", "stderr") if k in c}
+    absorb(run, rows, slim, mismatch_sig(sig_prefix))
+    run.notes["classes"] = class_counts(rows)
+
+
+LEVELS["C15"] = "model_checking"
+
+
+def check_C15(run, replay):
+    run.rule = ("runs of the built binary on rendered documents: zoo games and seeded games x {Gambit with constant sums "
+                "0, 2, -6, 1/2, 10, -1, payoffs partly on interior nodes, outcomes shared and referenced by number only, "
+                "unnamed infosets, names given at some nodes only, probabilities spelled reduced / unreduced / decimal, "
+                "shuffled action lists; JSON} x methods x presets x budgets {1,2,3,1000} x threads {1,2,0} x clip {0,0.05,"
+                "0.25,0.5,0.6} x file / stdin / -o; for every run TLC (MC_Cli.tla, Efg.tla) computes the meaning of the "
+                "document, checks NamesOK / DistOK of the printed strategies and evaluates the PRINTED strategies exactly on "
+                "the game as written (Game.tla) whenever they are small rationals; the printed utilities, regrets and their "
+                "relations are compared with these values and with the library's evaluation on the independently built "
+                "game; for the unsampled method and exact budgets also with the strategies of Cfr.tla; distinct by "
+                "canonical JSON of (game, argv, document text)")
+    run.assumptions = ["-t 0 with -r 0 (no limit at all) is excluded: it does not terminate by design",
+                       "printed strategies with large denominators are evaluated by the library only (instrument validated by C01)"]
+    cases, rows = cli_check(run, "c15", 10 if run.tier == "quick" else 60)
+    cli_absorb(run, cases, rows, "cli")
+    run.notes["exactly_evaluated_by_tlc"] = sum(1 for r in rows if r.get("exact"))
+    run.notes["solution_predicted_by_tlc"] = sum(1 for r in rows if r.get("solution_exact"))
+
+
+LEVELS["C16"] = "model_checking"
+
+
+def check_C16(run, replay):
+    run.rule = ("unsampled method: for each game (integer payoffs with one thread, tie-free dyadic payoffs with 2 / 4 / all "
+                "threads) x preset x budget {2,3,50(,1)} x threshold {0, 0.5} x clip {0, at / 1% below / 1% above a printed "
+                "probability, 0.6}: the same game as Gambit and as JSON through {file .efg, file .txt auto-detected, stdin "
+                "with and without --input-format, file .json, file .dat, -o file}; every printed solution must equal the "
+                "library's solve + truncate for the same options (1e-12 one thread, 1e-9 otherwise), all routes of a group "
+                "must agree, and for budgets <= 3 with exact presets must equal the strategies TLC computes with Cfr.tla and "
+                "the clip rule of Cli.tla (printed iff strictly lower regret); plus everything C15 checks; clip decisions "
+                "whose exact margin is zero are not judged")
+    run.assumptions = ["sampled methods are covered by C15's decoding-independent checks only",
+                       "the reference solve orders actions as the tool does (by name) so that both perform the same operations"]
+    cases, rows = cli_check(run, "c16", 6 if run.tier == "quick" else 30)
+    cli_absorb(run, cases, rows, "cli")
+    run.notes["solution_predicted_by_tlc"] = sum(1 for r in rows if r.get("solution_exact"))
+    run.notes["clip_decisions"] = {"clipped": sum(1 for r in rows if r.get("clipped") is True),
+                                   "kept": sum(1 for r in rows if r.get("clipped") is False)}
+
+
+LEVELS["C17"] = "fault_enumeration"
+
+
+def check_C17(run, replay):
+    run.rule = ("fault enumeration: every game of the corpus rendered as Gambit and JSON x every fault of the catalogue "
+                "(probability zero / negative / not summing to one, three players, one player, a payoff off constant-sum "
+                "by 0.05% / 0.15% / 0.5% of player one's range, player one's payoff flat with varying sums, unnamed infoset "
+                "whose number is another's name, two infosets of one player given one name, one name used by both players, "
+                "a node moved into another infoset (perfect recall), duplicate action, undefined / conflicting / null "
+                "outcome, bad player number, truncated text, payoff literal 1e999, unbalanced braces, garbage; JSON: "
+                "truncated, renamed / missing fields, wrong types, probability zero / negative, no actions, two variants) "
+                "x input routes {stdin, .efg, .json, .txt} x --input-format {auto, gambit, json}; TLC (Cli.tla Categories, "
+                "Efg.tla, Contract.tla) states the admissible diagnostic categories of each (document, parser); the binary "
+                "must exit non-zero with a diagnostic of one of them, empty stdout and no output file - or solve the input "
+                "when the set is empty; distinct by canonical JSON")
+    run.assumptions = ["corruptions at the level of the abstract document plus a few text-level ones; no byte-level fuzzing",
+                       "a document within the 0.1% tolerance must be accepted, one beyond it rejected (README)"]
+    cases, rows = cli_check(run, "c17", 8 if run.tier == "quick" else 40)
+    cli_absorb(run, cases, rows, "cli17")
+    faults = {}
+    for r in rows:
+        f = str(r.get("fault"))
+        faults[f] = faults.get(f, 0) + 1
+    run.notes["runs_per_fault"] = faults
